@@ -179,7 +179,7 @@ func c02Setup(c *core.Ctx) { c.Register("c02", c02Eval) }
 // The text/plain extension lists "text/html" among its aliases (an XHTML-like
 // registration): it is still not one of the three charset-bearing types.
 // The root extension uses the file extension ".xml" (as a sitemap dialect would).
-var c02ExtTree = []extOp{{Attach: 0, Pred: 2, Aliases: 1, ExtXML: true}, {Attach: 2, Pred: 4, Aliases: 2, AliasBuiltin: true}, {Attach: 3, Pred: 3, Aliases: 2}, {Attach: 8, Pred: 1}, {Attach: 5, Pred: 1, ExtXML: true}}
+var c02ExtTree = []extOp{{Attach: 0, Pred: 2, Aliases: 1, ExtXML: true}, {Attach: 2, Pred: 4, Aliases: 2, AliasBuiltin: true}, {Attach: 3, Pred: 3, Aliases: 2}, {Attach: 8, Pred: 1}, {Attach: 5, Pred: 1, ExtXML: true}, {Attach: 7, Pred: 1, NoExt: true}}
 
 var c02Tree *treeModel
 var c02Ext bool
